@@ -24,6 +24,14 @@ enum Msg {
     Finished,
 }
 
+/// panic payload used to unwind a parked reader out of `read()` at the end of a run
+struct Released;
+
+/// observation of a run that did not finish in time (only possible with a broken lock)
+fn t_hang() -> T {
+    T::l(vec![T::i(-778)])
+}
+
 fn run_sched(input: &T) -> T {
     let f = input.as_l();
     let k = f[1].as_usize();
@@ -105,8 +113,10 @@ fn run_sched(input: &T) -> T {
                     }
                     let _ = arrive.send((t, Msg::At(id)));
                     if grx.recv().is_err() {
+                        // released: unwind out of read() (a free-running read could spin
+                        // for ever if a mutated write leaves the counter odd)
                         free_h.set(true);
-                        return;
+                        std::panic::panic_any(Released);
                     }
                     // ghost c0: completed writes at the first sequence load of this call of read
                     if id == 3 && !begun_h.get() {
@@ -114,7 +124,7 @@ fn run_sched(input: &T) -> T {
                         c0_h.set(done_h.load(Ordering::SeqCst));
                     }
                 })));
-                loop {
+                let _ = std::panic::catch_unwind(std::panic::AssertUnwindSafe(|| loop {
                     begun.set(false);
                     let v = reader.read();
                     if free.get() {
@@ -126,7 +136,7 @@ fn run_sched(input: &T) -> T {
                         T::n(done.load(Ordering::SeqCst)),
                         T::list_n(&v[..k]),
                     ]));
-                }
+                }));
                 verif_hooks::set_hook(None);
             });
         }
@@ -135,25 +145,36 @@ fn run_sched(input: &T) -> T {
         // every thread runs to its first point
         let mut pos: Vec<Option<u8>> = vec![None; nthreads];
         let mut finished = vec![false; nthreads];
-        let wait = |pos: &mut Vec<Option<u8>>, finished: &mut Vec<bool>| {
-            let (t, m) = arrive_rx.recv().expect("worker died");
-            match m {
-                Msg::At(id) => pos[t] = Some(id),
-                Msg::Finished => {
+        let wait = |pos: &mut Vec<Option<u8>>, finished: &mut Vec<bool>| -> bool {
+            match arrive_rx.recv_timeout(std::time::Duration::from_secs(30)) {
+                Ok((t, Msg::At(id))) => pos[t] = Some(id),
+                Ok((t, Msg::Finished)) => {
                     pos[t] = Some(0);
                     finished[t] = true;
                 }
+                Err(_) => return false,
             }
+            true
         };
+        let mut ok = true;
         for _ in 0..nthreads {
-            wait(&mut pos, &mut finished);
+            ok = ok && wait(&mut pos, &mut finished);
         }
         for &t in &sched {
+            if !ok {
+                break;
+            }
             if t >= nthreads || finished[t] {
                 continue;
             }
-            grant_txs[t].as_ref().unwrap().send(()).expect("grant");
-            wait(&mut pos, &mut finished);
+            ok = grant_txs[t].as_ref().unwrap().send(()).is_ok() && wait(&mut pos, &mut finished);
+        }
+        if !ok {
+            result = t_hang();
+            for g in grant_txs.iter_mut() {
+                *g = None;
+            }
+            return;
         }
         let evs = events.lock().unwrap().clone();
         result = T::l(vec![
@@ -180,9 +201,11 @@ fn run_stress(input: &T) -> T {
     let stale = Arc::new(AtomicU64::new(0));
     let nonmono = Arc::new(AtomicU64::new(0));
     let total = Arc::new(AtomicU64::new(0));
-    std::thread::scope(|scope| {
+    let (fin_tx, fin_rx) = mpsc::channel::<()>();
+    {
         let p = published.clone();
-        scope.spawn(move || {
+        let fin = fin_tx.clone();
+        std::thread::spawn(move || {
             for i in 1..=nwrites {
                 writer.write(|d: &mut Data| {
                     for w in d.iter_mut() {
@@ -194,32 +217,43 @@ fn run_stress(input: &T) -> T {
                     std::thread::yield_now();
                 }
             }
+            let _ = fin.send(());
         });
-        for _ in 0..nreaders {
-            let reader = reader.clone();
-            let (p, torn, stale, nonmono, total) =
-                (published.clone(), torn.clone(), stale.clone(), nonmono.clone(), total.clone());
-            scope.spawn(move || {
-                let mut last = 0u64;
-                for _ in 0..nreads {
-                    let floor = p.load(Ordering::SeqCst);
-                    let v = reader.read();
-                    if v.iter().any(|w| *w != v[0]) {
-                        torn.fetch_add(1, Ordering::Relaxed);
-                    } else {
-                        if v[0] < floor {
-                            stale.fetch_add(1, Ordering::Relaxed);
-                        }
-                        if v[0] < last {
-                            nonmono.fetch_add(1, Ordering::Relaxed);
-                        }
-                        last = v[0];
+    }
+    for _ in 0..nreaders {
+        let reader = reader.clone();
+        let (p, torn, stale, nonmono, total) =
+            (published.clone(), torn.clone(), stale.clone(), nonmono.clone(), total.clone());
+        let fin = fin_tx.clone();
+        std::thread::spawn(move || {
+            let mut last = 0u64;
+            for _ in 0..nreads {
+                let floor = p.load(Ordering::SeqCst);
+                let v = reader.read();
+                if v.iter().any(|w| *w != v[0]) {
+                    torn.fetch_add(1, Ordering::Relaxed);
+                } else {
+                    if v[0] < floor {
+                        stale.fetch_add(1, Ordering::Relaxed);
                     }
-                    total.fetch_add(1, Ordering::Relaxed);
+                    if v[0] < last {
+                        nonmono.fetch_add(1, Ordering::Relaxed);
+                    }
+                    last = v[0];
                 }
-            });
+                total.fetch_add(1, Ordering::Relaxed);
+            }
+            let _ = fin.send(());
+        });
+    }
+    // watchdog: with the unmodified lock a run takes well under a second
+    let deadline = std::time::Instant::now() + std::time::Duration::from_secs(30);
+    for _ in 0..nreaders + 1 {
+        let left = deadline.saturating_duration_since(std::time::Instant::now());
+        if fin_rx.recv_timeout(left).is_err() {
+            return t_hang();
         }
-    });
+    }
     T::l(vec![
         T::n(torn.load(Ordering::SeqCst)),
         T::n(stale.load(Ordering::SeqCst)),
